@@ -38,9 +38,18 @@ def supports(iface: str, st: dict) -> bool:
 
 
 @contextlib.contextmanager
-def sim_bindings():
-    """Re-bind the concurrency seams of dataset_iteration to simulated ones."""
+def sim_bindings(*handles):
+    """Put the concurrency of the iteration code under the scheduler: the
+    given dataset handles temporarily become instances of the Dataset class
+    built from the re-executed (shimmed) dataset_iteration.py; the names of
+    the real module are re-bound as well (code that still reaches it)."""
     import sedpack.io.dataset_iteration as di
+    simcls = bootstrap.sim_dataset_cls()
+    swapped = []
+    for hnd in handles:
+        if hnd is not None and hnd.__class__ is not simcls:
+            swapped.append((hnd, hnd.__class__))
+            hnd.__class__ = simcls
     lp = bootstrap.sim_lazy_pool()
     saved = (di.LazyPool, di.ThreadPoolExecutor)
     di.LazyPool = lp.LazyPool
@@ -53,6 +62,8 @@ def sim_bindings():
         yield
     finally:
         di.LazyPool, di.ThreadPoolExecutor = saved
+        for hnd, cls in swapped:
+            hnd.__class__ = cls
 
 
 class ReadEnv:
@@ -404,7 +415,7 @@ def run_reader(env: ReadEnv, ds, iface: str, split: str, opts: dict, k=None,
                          trace_files=(bootstrap.LAZY_POOL_PY,)
                          if line_prob else (), line_prob=line_prob)
             rr.sched = sc
-            with sim_bindings(), sc:
+            with sim_bindings(ds), sc:
                 try:
                     pump(make_iter(ds, "conc", split, opts, counter))
                 except (S.SimDeadlock, S.SimStepLimit):
@@ -485,7 +496,7 @@ def run_interleaved(env: ReadEnv, ds, specs: list, seed: int, pattern: int,
     results = [[] for _ in specs]
     sc = S.Sched(random.Random(seed), policy=policy, max_steps=max_steps)
     err = None
-    with sim_bindings(), sc:
+    with sim_bindings(ds), sc:
         try:
             its = [iter(make_iter(ds, iface, split, opts, counter))
                    for iface, split, opts, counter in specs]
